@@ -1,19 +1,42 @@
-// Package c09: STUB — property C09 is not built yet.
+// Package c09: HTTP/2 relay flow control (shares the harness in internal/h2relay with C08).
 package c09
 
-import "verif/harness/internal/core"
+import (
+	"regexp"
+	"strings"
+
+	"verif/harness/internal/core"
+	"verif/harness/internal/h2relay"
+)
 
 type P struct{}
 
 func init() { core.Register(P{}) }
 
-func (P) ID() string   { return "C09" }
-func (P) Rule() string { return "stub" }
-func (P) Gen(r *core.Rand, tier string, emit func([]string)) {}
-func (P) NewExec() core.Exec                                   { return ex{} }
-func (P) Nontrivial(ops []string, impl []string) bool         { return false }
+func (P) ID() string { return "C09" }
+func (P) Rule() string {
+	return "case = one two-way session of 1..6 interleaved streams, each message with 1..4 DATA frames of 0..70000 bytes (a third padded " +
+		"with 0/1/10/255 bytes), fed frame by frame into the two real relays through the verif hook and interleaved with receiver-side " +
+		"SETTINGS (INITIAL_WINDOW_SIZE 0/1/10/65535/2^31-1, MAX_FRAME_SIZE 16384..2^24-1 non-decreasing) and stream/connection " +
+		"WINDOW_UPDATEs of 1..2^31-1; every line (frames delivered to each endpoint, both relays' windows and queues) is compared with the " +
+		"Lean model; distinct by hash of the op list; non-trivial when some frame waited in an output queue and a WINDOW_UPDATE or SETTINGS " +
+		"released at least one queued DATA frame"
+}
 
-type ex struct{}
+var queued = regexp.MustCompile(`:-?\d+:[dhupr]\d`)
 
-func (ex) Do(op string) core.Result { return core.Result{Impl: "bad-op"} }
-func (ex) Close()                   {}
+func (P) Nontrivial(ops []string, impl []string) bool {
+	waited, released := false, false
+	for i, l := range impl {
+		if queued.MatchString(l) {
+			waited = true
+		}
+		if i < len(ops) && (strings.HasPrefix(ops[i], "wu ") || strings.HasPrefix(ops[i], "settings ")) && strings.Contains(l, "[D") {
+			released = true
+		}
+	}
+	return waited && released
+}
+
+func (P) Gen(r *core.Rand, tier string, emit func([]string)) { h2relay.Gen("C09", r, tier, emit) }
+func (P) NewExec() core.Exec                                 { return h2relay.NewExec("C09") }
